@@ -117,12 +117,12 @@ def main(argv=None):
         import copy as _copy
         for i, case in enumerate(prop.strata(a.tier)):
             if i % a.nshards == a.shard:
-                again = _copy.deepcopy(case) if (i // a.nshards) % (4 if a.tier == "quick" else 2) == 0 else None
+                again = _copy.deepcopy(case) if getattr(prop, "OBJ_MODES", True) and ((i // a.nshards) % 2 == 0 or a.tier != "quick") else None
                 exec_case(prop, case, ctx)
                 n_strata += 1
                 if again is not None:
                     # the same stratum once more with the library's objects in another state (looked-at, copied, shared ...)
-                    exec_case(prop, again, ctx, objmode=OBJ_MODES[(i // a.nshards // 4) % len(OBJ_MODES)])
+                    exec_case(prop, again, ctx, objmode=OBJ_MODES[(i // a.nshards // 2) % len(OBJ_MODES)])
         budget = prop.budget(a.tier)
         scale = float(os.environ.get("VERIF_BUDGET_SCALE", "1"))
         budget = int(budget * scale)
